@@ -863,6 +863,13 @@ func c18Context(c *Ctx) {
 							bad = short(nm)
 						}
 					}
+					// a context-free replacement over the whole text also replaces inside string literals and comments:
+					// only a pattern that cannot occur inside a token - one that contains a line feed - is layout
+					if nm := callName(x); nm == "strings.ReplaceAll" || nm == "strings.Replace" || nm == "bytes.ReplaceAll" || nm == "bytes.Replace" {
+						if pat, ok := constString(x.Call.Args[1]); ok && !strings.Contains(pat, "\n") && flowsToOutput(x) && wholeText(x.Call.Args[0]) {
+							bad = "a replacement of " + strconv.Quote(pat) + " wherever it occurs (string literals and comments included)"
+						}
+					}
 				case *ssa.Convert:
 					// string -> []rune
 					if sl, ok := x.Type().Underlying().(*types.Slice); ok {
@@ -1197,4 +1204,54 @@ func lineStartPredicate(sf *ssa.Function) bool {
 		}
 	})
 	return ok && n > 0
+}
+
+// wholeText: v is the text a formatter function was given (its string parameter), possibly after earlier whole-text
+// calls (TrimPrefix, ReplaceAll) - as opposed to one line or one token cut out of it.
+func wholeText(v ssa.Value) bool {
+	for d := 0; d < 8; d++ {
+		switch x := v.(type) {
+		case *ssa.Parameter:
+			if !isStringType(x.Type()) {
+				return false
+			}
+			// the parameter is program text if the function cuts it into lines or hands it to a lexer / the transformer
+			isText := false
+			eachCall(x.Parent(), func(cl ssa.CallInstruction) {
+				nm := callName(cl)
+				args := cl.Common().Args
+				fromParam := func(a ssa.Value) bool {
+					return derivesFrom(a, func(z ssa.Value) bool { return z == ssa.Value(x) })
+				}
+				switch {
+				case (nm == "strings.Split" || nm == "strings.SplitAfter") && len(args) == 2:
+					if sep, ok := constString(args[1]); ok && sep == "\n" && fromParam(args[0]) {
+						isText = true
+					}
+				case strings.HasSuffix(nm, ".NewLexer") || strings.HasSuffix(nm, ".NewExpandedLexer") || strings.HasSuffix(nm, "/pkg/formatter.transform"):
+					if len(args) > 0 && fromParam(args[0]) {
+						isText = true
+					}
+				}
+			})
+			return isText
+		case *ssa.Call:
+			nm := callName(x)
+			if strings.HasPrefix(nm, "strings.") && len(x.Call.Args) > 0 && isStringType(x.Call.Args[0].Type()) && isStringType(x.Type()) {
+				v = x.Call.Args[0]
+				continue
+			}
+			return false
+		case *ssa.Phi:
+			for _, e := range x.Edges {
+				if !wholeText(e) {
+					return false
+				}
+			}
+			return len(x.Edges) > 0
+		default:
+			return false
+		}
+	}
+	return false
 }
